@@ -116,9 +116,9 @@ CHECKS = {
              "names, ticks and restarts change no content) with a ghost `unsaved` set that makes TLC generate the paths on which a leaked "
              "or re-opened store would lose data; every transition of the bounded graph (3 name variants incl. case, 2 values, 8-9 steps) "
              "is replayed through engine.Session with timers replaced by ticks delivered to every store still open; after each step the "
-             "selected database is read back, at the end every database is selected in turn, compared, and must accept a new row with a fresh id. Databases declare equally named tables with different column lists, so that schema information of one database can never serve another. The promises of Session.tla are also proved without bounds (any number of databases, rows, steps) with TLAPS (SessionProof.tla, re-checked on every run).",
+             "selected database is read back, at the end every database is selected in turn, compared, and must accept a new row with a fresh id. Databases declare equally named tables with different column lists, so that schema information of one database can never serve another. Every fourth path is replayed again in a database that holds eight more tables (Session!OtherTable), and every path with a tick followed by CREATE DATABASE once more with the two happening at the same time (the database created from inside the I/O hook of the tick's first page write: stores have a lock each). One scenario runs with the real flush timers while the process is held up for 260 ms inside USE / CREATE DATABASE (hook H2). The promises of Session.tla are also proved without bounds (any number of databases, rows, steps) with TLAPS (SessionProof.tla, re-checked on every run).",
         design_ref="DESIGN.md 6 (C17)",
-        note="Found and repaired with it: use-abandons-store, failed-use-nil-service. Trusted: TLC, hooks H1/H2 (timer off, store registry).",
+        note="Found and repaired with it: use-abandons-store, failed-use-nil-service, flusher-before-header. Trusted: TLC, hooks H1/H2 (timer off, store registry).",
         technique="TLA+ spec (Session.tla) model-checked with TLC and proved with TLAPS; per-transition behaviour replay through engine.Session",
     ),
     "C19": dict(
@@ -144,7 +144,7 @@ CHECKS = {
              "line, pasted, bracketed paste in three forms); outputs that differ from the machine's are judged by TLC itself "
              "(ConsoleJudge.tla): whitespace drift is a NOTE, anything else a violation. Code -> spec: seeded statement lists of 200..1200 bytes with "
              "multi-byte characters placed to straddle the console's 256-byte read boundary in every way are pasted under nine read "
-             "schedules (readers returning at most 256/100/7 bytes) and every output is judged by TLC against the reference meaning.",
+             "schedules (readers returning at most 256/100/7 bytes) and every output is judged by TLC against the reference meaning (among them statements of 4 200 and 9 000 characters and a session of 150 statements). Beyond the property's quantifier: ConsoleEdit.tla (the line editor: cursor, erasing keys, history ring; refines Console.tla) - every transition TLC explores is pressed on the real Terminal in two key spellings; a difference there is reported as a NOTE, not as a verdict.",
         design_ref="DESIGN.md 6 (C20)",
         note="Trusted: TLC, Json module, the in-package harness (feeds bytes, copies ReadLine results). Alphabet {1-2 letters, "
              "space, ;, ', \", optionally backslash} + Enter(13); a line break typed inside a literal is entered as a blank (Console!Entered); backquotes and comments are outside "
@@ -197,7 +197,7 @@ CHECKS = {
              "flags, LSN up to 2^64-1, key magnitude) and store sequences over adjacent pages; every explored Fetch transition is executed "
              "on a real fileStore (fresh fileStore = cold cache) and the decoded node's logical content and the file length are compared with the "
              "register content; len(encode())==4096 and decode(encode(n))==n for every stored node; seeded random workloads over nodes of any "
-             "admissible size are recorded and validated by TLC against PageCodecTrace.tla. Store level: in seeded runs of real statements every page the store holds is compared, after each flush, with what the data file alone decodes to (header included).",
+             "admissible size are recorded and validated by TLC against PageCodecTrace.tla. Store level: in seeded runs of real statements every page the store holds is compared, after each flush, with what the data file alone decodes to (header included). Several stores in one process: one session with the real flush timers creates databases while the selected one is being flushed, under the Go race detector - a data race with both accesses inside the page codec (stores sharing serialisation state) is a violation.",
         design_ref="DESIGN.md 6 (C12)",
         note="Trusted: TLC, Json module, accessor zz_verif_codec.go (forwards to insertLeafCell/appendInternalCell/insertInternalCell/split/"
              "encode/decode/update/fetch). Byte layout is not modelled, only exercised. Large values / cell lists compared by SHA-256. Scope: any "
